@@ -576,7 +576,7 @@ Section Safe.
     { intros H'. sb dec_handle_safe. sb ensure_consistent_safe; [exact W'|]. sret. }
     dif.
     - sb safe_delete_block. destruct r as [u|e]; [apply AFTER|].
-      destruct e; try sret; [apply AFTER | apply IH].
+      destruct e; try sret. apply IH.
     - sb safe_update_block; [exact W'|].
       destruct r as [[b2 rev2]|e]; [apply AFTER|].
       destruct e; try sret. apply IH.
@@ -593,6 +593,32 @@ Section Safe.
     unfold release_by_handle. sb safe_get_handle. destruct r as [[m rev]|e]; [apply rbh_blocks_safe | sret].
   Qed.
 
+  Lemma release_aff_loop_safe fuel : forall H host c must, (exists bs, blockc c bs) ->
+    safe H (release_aff_loop fuel host c must) Ptrue.
+  Proof.
+    induction fuel as [|f IH]; intros H host c must B; simpl; [exact I|].
+    sb release_block_affinity_safe; [exact B|]. destruct r as [|e]; [sret|].
+    destruct e; try sret. apply IH; exact B.
+  Qed.
+
+  Lemma is_blockb_spec p c : is_blockb p c = true -> is_block p c.
+  Proof.
+    unfold is_blockb. intros E. apply existsb_exists in E. destruct E as (x & Hin & Ex).
+    apply N.eqb_eq in Ex. subst x. apply in_map_iff in Hin. destruct Hin as (i & Ei & Hi).
+    apply in_seq in Hi. exists i. split; [lia | auto].
+  Qed.
+
+  Lemma release_affinity_safe H node c must : safe H (release_affinity cf node c must) Ptrue.
+  Proof.
+    unfold release_affinity. destruct (find_pool (enabled_pools cf) c) as [p|] eqn:F; [|sret].
+    destruct (is_blockb p c) eqn:IB; [|sret].
+    apply find_pool_some in F. destruct F as [Ip _].
+    unfold enabled_pools in Ip. apply filter_In in Ip. destruct Ip as [Ip _].
+    sb release_aff_loop_safe.
+    { exists (p_bsize p), p. split; auto. split; auto. apply is_blockb_spec; exact IB. }
+    destruct r; sret.
+  Qed.
+
   (* ---------------------------------------------------------------- operations, clients, system *)
   Definition op_post (o : op) (H : hist) (r : result) : Prop :=
     match o with
@@ -606,6 +632,7 @@ Section Safe.
     - apply auto_assign_safe.
     - apply release_ips_safe.
     - apply release_by_handle_safe.
+    - apply release_affinity_safe.
   Qed.
 
   (* a client = its operations in sequence (each names its own node); it returns every (operation, result) *)
